@@ -114,11 +114,13 @@ def bool_number_alias(a, b):
     return any(x == y for x in bools for y in nums)
 
 
-def in_domain(a, b, kw=None):
+def in_domain(a, b, kw=None, direct=False):
+    """direct: the two numbers are compared by _diff itself (root, dictionary value), never through one shared hashes table, so NoNumAlias
+    (a restriction about that table) does not apply"""
     kw = kw or {}
     if kw.get('ignore_numeric_type_changes') and bool_number_alias(a, b):
         return False
-    return (HS.no_num_alias(a, b) and HS.no_spoof(a, b) and not keys_collapse(a, kw) and not keys_collapse(b, kw)
+    return ((direct or HS.no_num_alias(a, b)) and HS.no_spoof(a, b) and not keys_collapse(a, kw) and not keys_collapse(b, kw)
             and not set_members_collapse(a, kw) and not set_members_collapse(b, kw))
 
 
@@ -164,11 +166,24 @@ def run(ctx, impl_only=False):
             x = C11.gen_value(ctx, NORMALISER_OF[n1])
             y = C11.apply_normaliser(ctx.rng, C11.apply_normaliser(ctx.rng, x, f1, k1, p=0.9), f2, k2, p=0.9)
             cases.append((x, y, (n1, n2)))
-    for (a, b, combo) in cases:
+    # letters whose case folding is not their lower case, and complex numbers with a zero imaginary part next to the equal real number:
+    # compared directly (root, dictionary value), where DeepDiff does not go through the item hashes
+    import decimal as _dc
+    for (x, y) in [('Straße', 'STRASSE'), ('ς', 'Σ'), ('ſ', 'S'), ('ǅ', 'ǆ'), ('İ', 'i'), ('Straße', 'straße'), ('ΣΑΣ', 'σας')]:
+        for w in (lambda v: v, lambda v: {'k': v}, lambda v: {'k': {'j': v}, 'z': 1}):
+            cases.append((w(x), w(y), ('ignore_string_case',)))
+            cases.append((w(x), w(y.encode()), ('ignore_string_case', 'ignore_string_type_changes')))
+    for (x, y) in [(1, 1 + 0j), (_dc.Decimal('3'), 3 + 0j), (7.0, 7 + 0j), (2, 2.0), (0, 0j), (1.5, 1.5 + 0j), (1 + 0j, 1 + 1j)]:
+        for w in (lambda v: v, lambda v: {'k': v}, lambda v: {'k': {'j': v}, 'z': 1}):
+            for nm in ('ignore_numeric_type_changes', 'significant_digits', 'significant_digits_e'):
+                cases.append((w(x), w(y), (nm,) if nm == 'ignore_numeric_type_changes' else ('ignore_numeric_type_changes', nm), 'direct'))
+    for case_ in cases:
+        a, b, combo = case_[:3]
+        direct = len(case_) > 3
         kw = {}
         for nm in combo:
             kw.update(OPTIONS[nm])
-        if not in_domain(a, b, kw):
+        if not in_domain(a, b, kw, direct):
             ctx.count('out_of_domain'); continue
         for rep in (False, True):
             case = {'a': repr(a), 'b': repr(b), 'options': list(combo), 'report_repetition': rep}
